@@ -3,11 +3,12 @@
 Theorems: coq/C05/Properties_C05.v (calculate_flat_index accepts exactly the in-range tuples and is a
 bijection onto the flat buffer; every access site accepts iff in range for indices that fit an int;
 rejected accesses change nothing; the array machine incl. pointers refines a shadow array keyed by
-index tuples for every operation sequence, with and without `checked`; five laws refuted on the
-faithful model = known findings).
+index tuples for every operation sequence, with and without `checked`; three laws refuted on the
+faithful model = known findings; the former int-truncation and offset-wrap defects are fixed in /repo
+(ff8053c, 2bd3a28) and the model mirrors the repaired code).
 Tie: (1) the extracted model (bin/c05_model) against the repository's own Variable::calculate_flat_index
 linked into harness/cpp/c05_flatidx.cpp, exhaustively on all shapes of 1-3 dimensions with extents 1..5 x
-all index tuples in [-2, extent+2] plus indices around +-2^31 / +-2^32; (2) generated Cb programs through
+all index tuples in [-2, extent+2] plus indices around +-2^31 / +-2^32 / +-2^63 (through Variable::index_to_int); (2) generated Cb programs through
 `main` for every access path (local / global / parameter array, struct member array, &a[i], p+-k, p++/p--,
 p[k], *p, *(p+k), `checked`/`try`) x read/write, compared with the model's run of the same operation list
 and with a Python shadow array keyed by index tuples (the property's own reading).
@@ -24,26 +25,29 @@ PROP = "C05"
 LEVEL = "proof"
 META = {
     "category": "proof",
-    "technique": "Coq proofs (row-major bijection, per-site accept-iff-in-range, invariant + refinement of an array/pointer "
-                 "machine to a tuple-keyed shadow array over all operation sequences) + extracted-model differential run "
-                 "against Variable::calculate_flat_index (leaf, exhaustive) and against main (generated programs)",
-    "text": "Machine-checked theorems about a site-by-site Gallina model of the interpreter's array index checks: "
-            "calculate_flat_index accepts exactly the tuples with every index inside its dimension and is a bijection between "
-            "those tuples and the flat buffer (row-major); every access site (local/global/parameter array, struct member array, "
-            "read and write) accepts iff in range whenever the indices fit an int (the sites that compare in 64 bits: for all "
-            "indices); a rejected access leaves the state unchanged; an accepted write changes the cell of exactly one tuple; "
-            "the pointer made by &a[i] never leaves the array under p+-k, p++/p--; for every sequence of reads, writes and pointer "
-            "operations the machine produces the results of a shadow array keyed by index tuples, without `checked` (run ends at "
-            "the first rejection) and with it (Err exactly on the rejected accesses, run continues). Laws the pinned code breaks are "
-            "proved refuted on the model with a witness and replayed on the real binary as known findings (int narrowing of "
-            "indices, offset*8 wrap in pointer arithmetic, rank-3 struct member arrays, p[k] into N-D arrays, unchecked "
-            "array_get/array_set). The model is tied to the code on every run: exhaustive small scopes against the repository's "
-            "own calculate_flat_index and against main through every access path, plus random access sequences against a shadow array.",
-    "note": "Trusted: Coq kernel (vm_compute only for the refutation witnesses and examples), no axioms (Print Assumptions: closed); "
-            "extraction via ExtrOcamlBasic+ExtrOcamlString, Z kept inductive; the model is hand-written and tied by differential "
-            "testing, not by a proof about the C++. Not modelled: the flattened-struct synchronisation (writes to cells of flat "
-            "index < first extent of a 2-D struct member are lost: known finding, avoided), pointers into struct member arrays and "
-            "into parameter arrays (aliasing, C07), element types other than int, string/char indexing, dynamic arrays.",
+    "technique": "Coq proofs (row-major bijection, per-site accept-iff-in-range for all integer indices, invariant + refinement of an "
+                 "array/pointer machine to a tuple-keyed shadow array over all operation sequences) + extracted-model differential run "
+                 "against Variable::index_to_int/calculate_flat_index (leaf, exhaustive) and against main (generated programs)",
+    "text": "Machine-checked theorems about a site-by-site Gallina model of the interpreter's array index checks (mirroring /repo at the "
+            "fixes ff8053c and 2bd3a28): calculate_flat_index accepts exactly the tuples with every index inside its dimension and is a "
+            "bijection between those tuples and the flat buffer (row-major); every access site (local/global/parameter array, struct "
+            "member array, read and write) accepts iff in range for every integer index (an index that does not fit an int is rejected "
+            "by index_to_int); a rejected access leaves the state unchanged; an accepted write changes the cell of exactly one tuple; "
+            "the pointer made by &a[i] never leaves the array under p+-k, p++/p--, for every offset; for every sequence of reads, writes "
+            "and pointer operations the machine produces the results of a shadow array keyed by index tuples, without `checked` (run "
+            "ends at the first rejection) and with it (Err exactly on the rejected accesses, run continues). Laws the pinned code still "
+            "breaks are proved refuted on the model with a witness and replayed on the real binary as known findings (rank-3 struct "
+            "member reads, p[k] into N-D arrays, unchecked array_get/array_set). The model is tied to the code on every run: exhaustive "
+            "small scopes against the repository's own index_to_int + calculate_flat_index and against main through every access path, "
+            "indices around +-2^31/2^32/2^63 and pointer offsets around 2^59/2^61 at every site, plus random access sequences against "
+            "a shadow array.",
+    "note": "Trusted: Coq kernel (vm_compute only for witnesses and examples), no axioms (Print Assumptions: closed; coqchk in the thorough "
+            "tier); extraction via ExtrOcamlBasic+ExtrOcamlString, Z kept inductive; the model is hand-written and tied by differential "
+            "testing, not by a proof about the C++. Hypotheses left in the theorems: declared extents fit an int (dims_fit), size < 2^31, "
+            "the buffer does not wrap the address space, p[k] only on rank-1 arrays, struct members of rank <= 2. Not modelled: the "
+            "flattened-struct synchronisation (writes to cells of flat index < first extent of a 2-D struct member are lost: known "
+            "finding, avoided), pointers into struct member arrays and into parameter arrays (aliasing, C07), element types other than "
+            "int, string/char indexing, dynamic arrays, int64 overflow of element_index + k.",
 }
 
 T31, T32, T61 = 2 ** 31, 2 ** 32, 2 ** 61
